@@ -74,7 +74,11 @@ CACHE_RULE = ("Scenario: 1..4 targets, one stream task per target playing 4..60 
               "Deletes inside multi notifications aim at existing leaves (this leaf, its parent, a sibling below the prefix, *). "
               "Second phase in 30% of the C03/C14 runs: one Reset task per target raced against an admin task that removes and re-adds "
               "the same targets; at quiescence feed replay == cache content (data leaves equal, no metadata leaf reported that the cache "
-              "does not store). Non-trivial: >= 3 operations judged.")
+              "does not store). C03 also runs the subscribe harness (real Subscribe server as the feed consumer, slow STREAM subscribers): "
+              "every notification handed to GnmiUpdate is byte-identical afterwards. C15 also runs the latency harness (compute task, "
+              "periodic refresher with jitter and stalls, optional second refresher as a Reset would be): every exported window statistic "
+              "lies between the value over the samples certainly inside the window and the value including the slot at its edge. "
+              "Non-trivial: >= 3 operations judged.")
 for _p in ("C02", "C03", "C14", "C15"):
     CHECKS[_p] = {
         "pkgs": ["cacheh", "subscribeh"] if _p in ("C14", "C03") else (["cacheh", "latencyh"] if _p == "C15" else ["cacheh"]),
@@ -113,7 +117,7 @@ CHECKS["C17"] = {
     "thorough": {"wall_s": 240, "race_wall_s": 60, "race_max_runs": 1500},
     "rule": "Scenario: 1..3 loader tasks each loading 1..8 configurations derived by mutation (add/remove/edit target, edit/rename request, "
             "re-point target, unused requests, invalid variants, nil, revision greater/equal/smaller), optionally on a base configuration; "
-            "handler calls recorded with stamps on the loader's own goroutine; map iteration order (the order of handler calls) drawn from "
+            "handler calls recorded with stamps on the loader's own goroutine (each call is a scheduling point, as a real handler takes locks); map iteration order (the order of handler calls) drawn from "
             "the tape. Oracles: no handler call and no change for a rejected load, exact diff per accepted load, replay == Current(), and "
             "porcupine on the accept/reject decisions against the revision rule. Non-trivial: >= 2 loads.",
     "real": ["target (instrumented)", "protobuf runtime"],
@@ -125,7 +129,7 @@ CHECKS["C16"] = {
     "pkg": "connectionh",
     "quick": {"wall_s": 20, "race_wall_s": 12, "race_max_runs": 1000},
     "thorough": {"wall_s": 240, "race_wall_s": 120, "race_max_runs": 1800},
-    "rule": "Scenario: 2..5 tasks requesting and releasing connections (sometimes twice, sometimes after a failed request) over 1..3 "
+    "rule": "Scenario: 2..5 tasks requesting and releasing connections (sometimes twice, sometimes from two goroutines at once, sometimes after a failed request) over 1..3 "
             "addresses with 1..3 cancellable contexts; scripted dial outcomes per address (success / error / blocked until its context is "
             "cancelled, each after an optional virtual delay); the ref++ -> wait-for-ready gap and the dial-failure path are scheduling "
             "points. Then every context is cancelled and every request must return. Oracles on stamps: at most one dial in flight per "
@@ -146,7 +150,8 @@ CHECKS["C13"] = {
             "error / end of stream / silence) and cycled dial outcomes (ok / refused / blocked, optional latency); 1..4 managed targets, some "
             "sharing an endpoint, with global and per-target receive timeouts; 1..3 fault-actor tasks issuing Add / Remove / Reconnect / "
             "duplicate Add / unknown Remove / unknown Reconnect after drawn virtual waits (ns to a minute); retry base/max delay drawn per "
-            "run, jitter off. Oracles: per-target callback automaton against what each scripted stream actually sent, silence after Remove "
+            "run, jitter off. Oracles: per-target callback automaton against what each scripted stream actually sent, a stream is given up by "
+            "the manager only for a cause (a Remove/Reconnect call for that target under way, or a silence of the receive timeout in force), silence after Remove "
             "returned, refused calls, Remove returns (quiescence = deadlock oracle), retries never stop, a stream that fell silent under a positive "
             "effective receive timeout (per-target override, else the manager's) is always timed out, back-off gap <= RetryMaxDelay, no "
             "goroutine left after removing everything. Non-trivial: at least one callback and one manager call.",
@@ -207,7 +212,8 @@ CHECKS["C01"] = {
             "(+JSON in a sub-batch), keyed paths, origins in the prefix or none, deprecated element paths, right / wrong / missing target "
             "names) -> the shipped collector main package started from a generated text-proto config file (1..n targets, shared or distinct "
             "requests, optional periodic metadata refresh) -> simulated gRPC (window 0/1/8/64) -> client/gnmi -> a reconnecting CacheClient "
-            "per target; in the fault sub-batch targets crash and restart with a different stream at drawn virtual times. At a virtual-time "
+            "per target (in 40% of the runs also a second client with the same query that leaves early or between the target's sessions); in "
+            "the fault sub-batch targets crash and restart with a different stream at drawn virtual times. At a virtual-time "
             "horizon the client view must equal the reference model's replay of the target's last stream as the collector files it (target "
             "name forced, empty origin promoted to openconfig); then cli.QueryDisplay ONCE in single / proto / group display, and the "
             "shipped gnmi_cli Subscribe branch invoked with query flags, inline -proto and -proto_file must print the same leaves. "
